@@ -63,10 +63,21 @@ var Types = []T{
 	// a recursive named function type (LAST entry, not in the random pools: only payloads 0 = nil and 7 = decoy exist):
 	// a parameter `f Step` of the function returned by a curried function of Step's own shape can stand in for it
 	{22, "Step", "func", "func", true, false},
+	// instances of generic named types declared in the package
+	{23, "Box[int]", "(st int)", "struct", false, false},
+	{24, "Pair[string, []int]", "(st string (sl int))", "struct", false, false},
 }
 
-// PoolSize is the number of types the random pools draw from (Step is placed by hand only).
-func PoolSize() int { return len(Types) - 1 }
+// PoolTypes are the types the random pools and the per-type loops draw from (Step is placed by hand only).
+func PoolTypes() []T {
+	var out []T
+	for _, t := range Types {
+		if t.ID != 22 {
+			out = append(out, t)
+		}
+	}
+	return out
+}
 
 // ErrT is a type used where an `error` is expected.
 type ErrT struct {
@@ -116,7 +127,7 @@ func (e Err) ErrCode() int  { return e.Code }
 // OKTypes are the ids for which the printed zero value is well typed today.
 func OKTypes() []int {
 	var out []int
-	for _, t := range Types[:len(Types)-1] { // without Step (placed by hand only)
+	for _, t := range PoolTypes() {
 		if t.ZeroOK {
 			out = append(out, t.ID)
 		}
@@ -182,6 +193,13 @@ func zr(n int) int {
 		return 0
 	}
 	return n
+}
+
+// generic named types; the corpus uses the instances Box[int] and Pair[string, []int]
+type Box[T any] struct{ V T }
+type Pair[A, B any] struct {
+	A A
+	B B
 }
 
 // Step: see type 22. decoy is a Step that must never be called: it logs every entry.
@@ -585,6 +603,17 @@ func ob21(v *sqp) int {
 		return -1
 	}
 	return v.n
+}
+func mk23(n int) Box[int] { return Box[int]{n} }
+func ob23(v Box[int]) int { return v.V }
+func mk24(n int) Pair[string, []int] {
+	return Pair[string, []int]{A: mk1(n), B: mk9(n)}
+}
+func ob24(v Pair[string, []int]) int {
+	if ob1(v.A) != ob9(v.B) {
+		return -1
+	}
+	return ob1(v.A)
 }
 func mk22(n int) Step {
 	if n == 0 {
